@@ -99,6 +99,34 @@ func runValOps(payload []*Sx) *Sx {
 			consistent = false
 		}
 	}
+	// the JSON form of a value decodes to an equal value WHATEVER the destination held before (a reused loop variable, a slice element):
+	// records and sets decoded into typed destinations that already hold another record / set, the empty ones included
+	for _, p := range probes {
+		b, err := json.Marshal(p)
+		if err != nil {
+			continue
+		}
+		switch pv := p.(type) {
+		case types.Record:
+			for _, old := range []types.Record{types.NewRecord(types.RecordMap{"old": types.Long(1), "a": types.String("x")}), {}, pv} {
+				dst := old
+				if err := json.Unmarshal(b, &dst); err == nil && (!dst.Equal(pv) || !pv.Equal(dst)) {
+					consistent = false
+				}
+				hold := []types.Record{old}
+				if err := json.Unmarshal(append(append([]byte("["), b...), ']'), &hold); err == nil && (len(hold) != 1 || !hold[0].Equal(pv)) {
+					consistent = false
+				}
+			}
+		case types.Set:
+			for _, old := range []types.Set{types.NewSet(types.Long(41), types.String("old")), {}, pv} {
+				dst := old
+				if err := json.Unmarshal(b, &dst); err == nil && (!dst.Equal(pv) || !pv.Equal(dst)) {
+					consistent = false
+				}
+			}
+		}
+	}
 	// constructor inputs of EVERY size, the empty ones included: an empty (non-nil) map, an empty and a one-element slice, then mutated
 	{
 		em := types.RecordMap{}
